@@ -2,7 +2,7 @@
 import json, sys
 pid = sys.argv[1]
 extra = sys.argv[2] if len(sys.argv) > 2 else ""
-variation = sys.argv[3] if len(sys.argv) > 3 else ""
+variation = (sys.argv[3].rstrip("\n") + "\n") if len(sys.argv) > 3 else ""
 for l in open('/verif/properties.jsonl'):
     p = json.loads(l)
     if p['id'] == pid:
